@@ -42,13 +42,15 @@ CONSTANTS NC,          \* callers 2..3
           ErrVar,      \* "ascoded" | "repaired"
           RdVar,       \* "state" | "ctor"
           InputMode,   \* "own" | "sharedcap"
-          HistMode     \* "copy" | "adopt"
+          HistMode,    \* "copy" | "adopt"
+          ToolsVar     \* "percall" | "node": where the tool set of a caller that passes WithToolList lives (tool_node.go:277-285);
+                       \* "node" = the seeded defect "the per-call tool list is saved on the ToolsNode"; callers with an even number pass one
 
 Callers == 1..NC
 Tags == <<"v1k1r1", "v1k2r1", "v1k3r1">>
 UserOf(k, code) == IF InputMode = "sharedcap" THEN "q|shared" ELSE "q|" \o Tags[k] \o "|" \o ToString(code \div 10) \o "|" \o ToString(code % 10)
 CaseOf(k, code) == [ev |-> "case", id |-> Tags[k], agent |-> "react", tag |-> Tags[k], user |-> UserOf(k, code), n |-> code \div 10, d |-> code % 10,
-                    w |-> 0, modifier |-> FALSE]
+                    w |-> 0, modifier |-> FALSE, alt |-> (k % 2 = 0)]
 
 \* heap of arrays: 0 the callers' shared input array, 1..NC the history arrays made by the state generator per run, NC+1 the
 \* history array a compile-time generator would have made, NC+1+k caller k's own input array
@@ -58,8 +60,8 @@ Arrs == 0..(2 * NC + 1)
 InArr(k) == IF InputMode = "sharedcap" THEN 0 ELSE NC + 1 + k
 Blank == [i \in 1..Cap |-> Null]
 
-VARIABLES cs, pc, heap, obj, inp, out, res, msg, S, cerr, crdid, touched, active, overlap, raced
-vars == <<cs, pc, heap, obj, inp, out, res, msg, S, cerr, crdid, touched, active, overlap, raced>>
+VARIABLES cs, pc, heap, obj, inp, out, res, msg, S, cerr, crdid, nodealt, touched, active, overlap, raced
+vars == <<cs, pc, heap, obj, inp, out, res, msg, S, cerr, crdid, nodealt, touched, active, overlap, raced>>
 
 NewObj(a) == [arr |-> a, len |-> 0, rdid |-> ""]
 C(k) == CaseOf(k, cs[k])
@@ -71,7 +73,7 @@ Init == /\ cs \in [Callers -> Scripts]
         /\ inp = [k \in Callers |-> <<>>] /\ out = [k \in Callers |-> Null] /\ res = [k \in Callers |-> Null]
         /\ msg = [k \in Callers |-> <<>>]
         /\ S = [k \in Callers |-> Idle]
-        /\ cerr = "nil" /\ crdid = "" /\ touched = [v \in {"err", "input"} |-> {}] /\ active = {} /\ overlap = {} /\ raced = FALSE
+        /\ cerr = "nil" /\ crdid = "" /\ nodealt = FALSE /\ touched = [v \in {"err", "input", "tools"} |-> {}] /\ active = {} /\ overlap = {} /\ raced = FALSE
 
 O(k) == IF StateMode = "percall" THEN k ELSE 0
 Read(h, sl) == SubSeq(h[sl.arr], 1, sl.len)
@@ -91,7 +93,7 @@ Begin(k) ==
   /\ heap' = [heap EXCEPT ![k] = Blank, ![InArr(k)] = IF InputMode = "own" THEN [Blank EXCEPT ![1] = UserR(C(k))] ELSE @]
   /\ inp' = [inp EXCEPT ![k] = <<>>]        \* first round: the input is the caller's slice (InArr(k), len 1)
   /\ S' = [S EXCEPT ![k] = Apply(Apply(Idle, C(k)), [ev |-> "call", mode |-> "generate"])]
-  /\ UNCHANGED <<cs, out, res, msg, cerr, crdid, touched, raced>>
+  /\ UNCHANGED <<cs, out, res, msg, cerr, crdid, nodealt, touched, raced>>
 
 \* the stateless chat model: the conversation is the one of the tag carried by the context, j = tool messages so far
 ModelAnswer(k, h) ==
@@ -118,7 +120,7 @@ Chat(k) ==
        /\ out' = [out EXCEPT ![k] = ModelAnswer(k, hist)]
        /\ IF o.arr = 0 /\ ~first THEN Touch("input", k) ELSE UNCHANGED <<raced, touched>>
   /\ pc' = [pc EXCEPT ![k] = "branch"]
-  /\ UNCHANGED <<cs, inp, res, msg, cerr, crdid, active, overlap>>
+  /\ UNCHANGED <<cs, inp, res, msg, cerr, crdid, nodealt, active, overlap>>
 
 \* what the caller finds in its input slice afterwards
 InputEv(k) == LET a == heap[InArr(k)] IN
@@ -130,7 +132,7 @@ Branch(k) ==
      THEN /\ S' = [S EXCEPT ![k] = Finish(Apply(@, [ev |-> "answer", msg |-> out[k], tags |-> SeqOf(TagsIn(<<out[k]>>))]), k)]
           /\ pc' = [pc EXCEPT ![k] = "done"] /\ active' = active \ {k}
      ELSE /\ pc' = [pc EXCEPT ![k] = "toolspre"] /\ UNCHANGED <<S, active>>
-  /\ UNCHANGED <<cs, heap, obj, inp, out, res, msg, cerr, crdid, touched, overlap, raced>>
+  /\ UNCHANGED <<cs, heap, obj, inp, out, res, msg, cerr, crdid, nodealt, touched, overlap, raced>>
 
 RdIdOf(m) == IF m.calls[1].name = "trd" THEN m.calls[1].id ELSE ""
 \* react.go:210-214, the tools pre-handler
@@ -142,24 +144,28 @@ ToolsPre(k) ==
        /\ IF o.arr = 0 THEN Touch("input", k) ELSE UNCHANGED <<raced, touched>>
   /\ crdid' = (IF RdVar = "ctor" THEN RdIdOf(out[k]) ELSE crdid)
   /\ pc' = [pc EXCEPT ![k] = "tool"]
-  /\ UNCHANGED <<cs, inp, out, res, msg, S, cerr, active, overlap>>
+  /\ UNCHANGED <<cs, inp, out, res, msg, S, cerr, nodealt, active, overlap>>
 
+\* tool_node.go:274-305: the tool set is the call option's list if given, else the configured one
 Tool(k) ==
   /\ pc[k] = "tool"
   /\ LET cl == out[k].calls[1]
-         o == cl.name \o "(" \o cl.args \o ")"
+         usealt == IF ToolsVar = "percall" THEN C(k).alt ELSE (C(k).alt \/ nodealt)
+         o == (IF usealt THEN "alt:" ELSE "") \o cl.name \o "(" \o cl.args \o ")"
          tm == [role |-> "tool", content |-> o, calls |-> <<>>, tcid |-> cl.id] IN
        /\ S' = [S EXCEPT ![k] = Apply(@, [ev |-> "tool", name |-> cl.name, args |-> cl.args, out |-> o, tags |-> SeqOf(TagsIn(<<tm>>))])]
        /\ res' = [res EXCEPT ![k] = tm]
+  /\ nodealt' = (IF ToolsVar = "node" /\ C(k).alt THEN TRUE ELSE nodealt)
+  /\ IF ToolsVar = "node" THEN Touch("tools", k) ELSE UNCHANGED <<raced, touched>>
   /\ pc' = [pc EXCEPT ![k] = "rdbranch"]
-  /\ UNCHANGED <<cs, heap, obj, inp, out, msg, cerr, crdid, touched, active, overlap, raced>>
+  /\ UNCHANGED <<cs, heap, obj, inp, out, msg, cerr, crdid, active, overlap>>
 
 RdId(k) == IF RdVar = "ctor" THEN crdid ELSE obj[O(k)].rdid
 RdBranch(k) ==
   /\ pc[k] = "rdbranch"
   /\ IF RdId(k) # "" THEN pc' = [pc EXCEPT ![k] = "direct1"] /\ UNCHANGED inp
      ELSE pc' = [pc EXCEPT ![k] = "chat"] /\ inp' = [inp EXCEPT ![k] = <<res[k]>>]
-  /\ UNCHANGED <<cs, heap, obj, out, res, msg, S, cerr, crdid, touched, active, overlap, raced>>
+  /\ UNCHANGED <<cs, heap, obj, out, res, msg, S, cerr, crdid, nodealt, touched, active, overlap, raced>>
 
 Access(k) == IF ErrVar = "ascoded" THEN Touch("err", k) ELSE UNCHANGED <<raced, touched>>
 \* react.go:257  err = compose.ProcessState(...): picks the message whose ToolCallID is the recorded one
@@ -169,7 +175,7 @@ Direct1(k) ==
   /\ cerr' = (IF ErrVar = "ascoded" THEN "nil" ELSE cerr)
   /\ Access(k)
   /\ pc' = [pc EXCEPT ![k] = "direct2"]
-  /\ UNCHANGED <<cs, heap, obj, inp, out, res, S, crdid, active, overlap>>
+  /\ UNCHANGED <<cs, heap, obj, inp, out, res, S, crdid, nodealt, active, overlap>>
 \* react.go:266  if err != nil ...; msg == nil => ErrNoValue => the answer stream is empty
 Direct2(k) ==
   /\ pc[k] = "direct2"
@@ -177,7 +183,7 @@ Direct2(k) ==
   /\ S' = [S EXCEPT ![k] = Finish(Apply(@, IF msg[k] = <<>> THEN [ev |-> "error", text |-> "empty answer stream"]
                                            ELSE [ev |-> "answer", msg |-> msg[k][1], tags |-> SeqOf(TagsIn(msg[k]))]), k)]
   /\ pc' = [pc EXCEPT ![k] = "done"] /\ active' = active \ {k}
-  /\ UNCHANGED <<cs, heap, obj, inp, out, res, msg, cerr, crdid, overlap>>
+  /\ UNCHANGED <<cs, heap, obj, inp, out, res, msg, cerr, crdid, nodealt, overlap>>
 
 Done == (\A k \in Callers : pc[k] = "done") /\ UNCHANGED vars
 Next == (\E k \in Callers : Begin(k) \/ Chat(k) \/ Branch(k) \/ ToolsPre(k) \/ Tool(k) \/ RdBranch(k) \/ Direct1(k) \/ Direct2(k)) \/ Done
